@@ -223,6 +223,19 @@ func checkDRM(drmName string, drmCfg *drm.DrmConfig, a *asset) error {
 	if a.refRep != nil && a.refRep.PreEncrypted {
 		return fmt.Errorf("drm parameter %q, but pre-encrypted asset %s cannot be encrypted again", drmName, a.AssetPath)
 	}
+	// Not only the reference track: a pre-encrypted audio track of an asset with clear video
+	// would be announced with the new key while it is served with its own protection.
+	var preEncReps []string
+	for _, rep := range a.Reps {
+		if rep.PreEncrypted {
+			preEncReps = append(preEncReps, rep.ID)
+		}
+	}
+	if len(preEncReps) > 0 {
+		sort.Strings(preEncReps)
+		return fmt.Errorf("drm parameter %q, but asset %s has pre-encrypted representations that cannot be encrypted again: %s",
+			drmName, a.AssetPath, strings.Join(preEncReps, ", "))
+	}
 	// Video and audio that cannot be encrypted would be served in the clear, while the MPD announces the protection
 	var clearReps []string
 	for _, rep := range a.Reps {
